@@ -60,6 +60,10 @@ structure Out where
   secret : Option Nat := none
   /-- holder commitment number for which a holder (broadcastable) signature is contained in the reply -/
   signed : Option Nat := none
+  /-- ghost: holder commitment number that this request validated successfully, i.e. the content
+      passed the policy and the counterparty signatures verified on the recomposed transactions
+      (set even when a later step of a composite request fails) -/
+  validated : Option Nat := none
   deriving DecidableEq, Repr
 
 structure Chan where
@@ -160,7 +164,7 @@ def validate (c : Chan) (n info : Nat) (sigsValid policyOk : Bool) : R :=
     if !sigsValid then fail c .errPolicy                    -- check_holder_tx_signatures
     else
       let c' := if n = c.next then { c with nextInfo := some info } else c
-      { c := c', out := { res := .ok }, persisted := true }
+      { c := c', out := { res := .ok, validated := some n }, persisted := true }
   | r => fail c r
 
 /-- `release_commitment_secret(n)`: the point of `n+1` and, for `n ≥ 1`, the secret of `n-1` -/
@@ -293,7 +297,7 @@ def needReady (c : Chan) (f : Chan → R) : R :=
 def andThen (r : R) (g : Chan → R) : R :=
   if r.out.res = .ok then
     let r2 := g r.c
-    { c := r2.c, out := r2.out, persisted := r.persisted || r2.persisted }
+    { c := r2.c, out := { r2.out with validated := r.out.validated }, persisted := r.persisted || r2.persisted }
   else r
 
 def chanStep (F : Nat → Bytes → Bytes) (c : Chan) : Op → R
